@@ -125,7 +125,7 @@ class _TlcSlot:
 
     def __enter__(self):
         import fcntl
-        d = os.path.join(BUILD, 'locks')
+        d = os.path.join(os.environ.get('TMPDIR', '/tmp'), 'verif_tlc_slots')       # machine-wide (created on demand): copies of /verif share it
         os.makedirs(d, exist_ok=True)
         while True:
             for i in range(TLC_SLOTS):
